@@ -322,8 +322,11 @@ class DocPrinter:
 
     def definition(self, d):
         st = self.off
+        if d["k"] == "raw":
+            self.w(d["text"])
+            return
         if d["k"] == "op":
-            if d.get("shorthand"):
+            if d.get("shorthand") and not d.get("vars") and not d.get("dirs"):
                 self.sels(d["sels"], 0)
             else:
                 self.w(d["type"])
